@@ -42,3 +42,129 @@ Theorem C19_page_alignment :
     pageAlignFloor P pos <= pos /\ pos <= pageAlignCeil P pos < pos + P.
 Proof. exact page_align_sandwich. Qed.
 Print Assumptions C19_page_alignment.
+
+(* ---- the in-memory batch buffer (buf []byte, kvs []uint64, Alloc handles): BatchBuf.v ---- *)
+From Moss Require Import SegmentFacts BatchBuf BatchBufFacts.
+From Moss Require Index.
+
+(* every legal sequence of Set/Del/Merge/Alloc/copy/AllocSet/AllocDel/AllocMerge calls, keys
+   and values of any length and content: the batch decodes to what it decoded to before,
+   followed by the accepted operations in call order with exactly their bytes *)
+Theorem C19_batch_calls_roundtrip :
+  forall (cs : list call) (st : bstate) (es : segment),
+    wf st -> run_legal st cs -> entries st = Some es ->
+    entries (run st cs) = Some (es ++ accepted_run st cs).
+Proof. exact run_entries. Qed.
+Print Assumptions C19_batch_calls_roundtrip.
+
+(* one call: earlier entries are never disturbed, a rejected call contributes nothing *)
+Theorem C19_batch_call_appends :
+  forall (st : bstate) (c : call) (es : segment),
+    wf st -> call_legal st c -> entries st = Some es ->
+    entries (fst (step st c)) = Some (es ++ accepted st c).
+Proof. exact step_entries. Qed.
+Print Assumptions C19_batch_call_appends.
+
+(* every mixture of plain and Alloc-built operations (Alloc, copy, AllocXxx on the two
+   halves): the batch holds exactly the operations that returned nil, in call order *)
+Theorem C19_plain_and_alloc_built_mixture :
+  forall (hs : list hop) (st : bstate) (es : segment),
+    wf st -> hlegal st hs -> entries st = Some es ->
+    entries (hrun st hs) = Some (es ++ haccepted st hs).
+Proof. exact hrun_entries. Qed.
+Print Assumptions C19_plain_and_alloc_built_mixture.
+
+(* a handle returned by Alloc is live, reads n zero bytes, lies behind every registered
+   range and behind every live handle: handed-out ranges never overlap *)
+Theorem C19_alloc_handles_disjoint :
+  forall (st : bstate) (n : N) (st' : bstate) (h : handle) (es : segment),
+    wf st -> entries st = Some es -> alloc st n = (st', RHandle h) ->
+    h_live st' h /\ h_len h = n /\ h_lo h = blen (b_buf st) /\ read st' h = zeros n /\
+    Forall (fun r => range_disjoint r (h_lo h) (h_hi h)) (ranges st') /\
+    (forall h0, h_live st h0 -> h_hi h0 <= h_lo h) /\
+    b_gen st' = b_gen st /\ b_cap st' = b_cap st /\ b_kvs st' = b_kvs st.
+Proof. exact alloc_handle_fresh. Qed.
+Print Assumptions C19_alloc_handles_disjoint.
+
+Theorem C19_copy_into_handle_reads_back :
+  forall (st : bstate) (h : handle) (d : bytes),
+    h_live st h -> blen d = h_len h -> read (fill st h d) h = d.
+Proof. exact fill_read. Qed.
+Print Assumptions C19_copy_into_handle_reads_back.
+
+Theorem C19_copy_leaves_other_handles :
+  forall (st : bstate) (h : handle) (d : bytes) (h' : handle),
+    h_lo h' <= h_hi h' -> h_hi h' <= blen (b_buf st) -> h_lo h <= h_hi h ->
+    (h_hi h' <= h_lo h \/ h_hi h <= h_lo h') ->
+    read (fill st h d) h' = read st h'.
+Proof. exact fill_read_other. Qed.
+Print Assumptions C19_copy_leaves_other_handles.
+
+(* Alloc / AllocSet / AllocDel / AllocMerge returning an error leave the batch untouched *)
+Theorem C19_rejected_alloc_call_changes_nothing :
+  forall (st : bstate) (c : call) (e : berr),
+    is_plain c = false -> snd (step st c) = RErr e -> fst (step st c) = st.
+Proof. exact rejected_alloc_call_unchanged. Qed.
+Print Assumptions C19_rejected_alloc_call_changes_nothing.
+
+(* a rejected Set / Del / Merge registers nothing but its bytes stay in buf *)
+Theorem C19_rejected_plain_call_keeps_bytes :
+  forall (st : bstate) (c : call) (e : berr),
+    is_plain c = true -> snd (step st c) = RErr e ->
+    b_kvs (fst (step st c)) = b_kvs st /\ b_buf (fst (step st c)) = b_buf st ++ call_data c.
+Proof. exact rejected_plain_keeps_bytes. Qed.
+Print Assumptions C19_rejected_plain_call_keeps_bytes.
+
+(* buf moves to a new array only when a plain operation does not fit *)
+Theorem C19_buffer_moves_only_on_overflow :
+  forall (st : bstate) (c : call),
+    blen (b_buf st) + call_bytes c <= b_cap st ->
+    b_gen (fst (step st c)) = b_gen st /\ b_cap (fst (step st c)) = b_cap st.
+Proof. exact step_same_array. Qed.
+Print Assumptions C19_buffer_moves_only_on_overflow.
+
+(* sort permutes kvs pairs only; a sorted batch with unique keys is a Segment.v segment *)
+Theorem C19_sorted_batch_is_model_segment :
+  forall (st : bstate) (es : segment),
+    entries st = Some es -> NoDup (keys es) ->
+    entries (sort_batch st) = Some (sort_seg es) /\ asc (keys (sort_seg es)) /\
+    (forall x, In x (sort_seg es) <-> In x es) /\
+    (forall k, find (sort_seg es) k = find es k).
+Proof. exact sorted_batch_is_segment. Qed.
+Print Assumptions C19_sorted_batch_is_model_segment.
+
+Theorem C19_batch_find_start_is_lower_bound :
+  forall (st : bstate) (es : segment) (key : bytes),
+    entries st = Some es -> NoDup (keys es) ->
+    batch_find_start (sort_batch st) key = Index.lower_bound (keys (sort_seg es)) key.
+Proof. exact batch_find_start_spec. Qed.
+Print Assumptions C19_batch_find_start_is_lower_bound.
+
+Theorem C19_batch_get_is_find :
+  forall (st : bstate) (es : segment) (key : bytes),
+    entries st = Some es -> NoDup (keys es) -> batch_get (sort_batch st) key = find es key.
+Proof. exact batch_get_spec. Qed.
+Print Assumptions C19_batch_get_is_find.
+
+(* REFUTED (finding): a handle obtained from Alloc of this batch and filled before use
+   registers a wrong entry once a plain operation has outgrown the capacity in between *)
+Theorem C19_refuted_handle_survives_growth :
+  snd (alloc (new_batch 4 8) 4) = RHandle stale_h /\
+  read (run (new_batch 4 8) [CAlloc 4; CFill stale_h b_k1v1]) stale_h = b_k1v1 /\
+  map (fun c => res_code (snd (step (new_batch 4 8) c))) [CAlloc 4] = [0] /\
+  b_gen (run (new_batch 4 8) stale_calls) = 1 /\
+  b_kvs (run (new_batch 4 8) stale_calls) =
+    [encode OperationSet 8 8; 4; encode OperationSet 2 2; 24] /\
+  blen (b_buf (run (new_batch 4 8) stale_calls)) = 20 /\
+  entries (run (new_batch 4 8) stale_calls) <>
+    Some [(b_plainkey, OSet b_plainval); ([107; 49], OSet [118; 49])].
+Proof. exact stale_handle_refuted. Qed.
+Print Assumptions C19_refuted_handle_survives_growth.
+
+(* REFUTED: AllocSet registers the bytes that FOLLOW the key, not the value slice passed *)
+Theorem C19_refuted_detached_value :
+  entries (run (new_batch 2 16) detached_calls) = Some [([107; 49], OSet [120; 120])] /\
+  snd (step (run (new_batch 2 16) (removelast detached_calls))
+            (CAllocSet (mkH 0 0 2 16) (mkH 0 4 6 16))) = ROk.
+Proof. exact detached_value_refuted. Qed.
+Print Assumptions C19_refuted_detached_value.
